@@ -104,6 +104,12 @@ def run(ctx):
 
     check_arm_purity(ctx, "E2-A", P, with_mappers(P, fns))
     check_dispatching(ctx, "E2-A", P, fns)
+    from . import spec as SP
+
+    nsp = 0
+    for f in fns:
+        nsp += SP.check_trait_by_scheme(ctx, "E2.dispatch", P, f, ("sign", "verify", "partial_sign", "partial_verify", "aggregate_verify", "multi_sig_verify", "pop_prove", "pop_verify", "core_sign", "core_verify"))
+    ctx.floor("E2.dispatch", "(verifying wrapper, scheme) pairs reaching the scheme's own verifier", nsp, 10)
     for f in fns:
         ev = evaluate(f)
         for b, d in ev.switch.items():
